@@ -15,6 +15,28 @@ def case_digest(case):
     return hashlib.blake2b(json.dumps(case, sort_keys=True, default=str).encode(), digest_size=8).digest()
 
 
+def with_route(check):
+    """run a check under the execution route named by case['strategy'] (scaled thresholds, see lib.set_strategy); checks that
+    manage routes themselves simply set the same values again."""
+    if getattr(check, "_gbv_routed", False):
+        return check
+
+    def routed(case, ctx):
+        from . import lib
+
+        st = case.get("strategy") if isinstance(case, dict) else None
+        if not st:
+            return check(case, ctx)
+        lib.set_strategy(**st)
+        try:
+            return check(case, ctx)
+        finally:
+            lib.reset_strategy()
+
+    routed._gbv_routed = True
+    return routed
+
+
 class Ctx:
     def __init__(self, args, outdir):
         self.prop = args.prop
@@ -61,6 +83,7 @@ class Ctx:
         self.journal.write(f"START {self.index}\n")
         self.journal.flush()
         faulthandler.dump_traceback_later(self.case_timeout, exit=True)
+        check = with_route(check)
         try:
             fails = list(check(case, self) or [])
             fails += lib.drain_side_failures()
@@ -165,7 +188,7 @@ def main():
         with open(args.replay) as f:
             rec = json.load(f)
         case = rec["case"] if "case" in rec else rec
-        fails = list(mod.check(case, ctx) or []) + lib.drain_side_failures()
+        fails = list(with_route(mod.check)(case, ctx) or []) + lib.drain_side_failures()
         want = rec.get("monitor")
         hit = [f for f in fails if want is None or f["monitor"] == want]
         print(json.dumps({"replay_failures": fails}, default=str))
